@@ -63,6 +63,8 @@ Definition idx_next (tables : list (list string)) (ms : list nat) (o : iop strin
   | IGen j n => bump j n ms
   | IScan n act => match n with 0 => ms | _ => scan_tot tables n act ms end
   | ISaveReload => ms
+  | ILock => ms
+  | IUnlock => ms
   end.
 Fixpoint chains_are (tables : list (list string)) (ms : list nat) (cs : list (list string)) : bool :=
   match ms, tables, cs with
